@@ -65,11 +65,87 @@ func navStateRoot(addr ssa.Value) *ssa.Parameter {
 				return nil
 			}
 			addr = x.Edges[0]
+		case *ssa.Call:
+			// pe := c.top(): an accessor that hands out the address of an element of the state
+			_, _, arg, ok := navAccessor(x)
+			if !ok {
+				return nil
+			}
+			addr = arg
 		default:
 			return nil
 		}
 	}
 	return nil
+}
+
+// navAccessor: call is a call of a repository helper whose single result is the address of a part of the cursor
+// state reached from one of its parameters (`func (c *Cursor) top() *pathEntry { return &c.path[len(c.path)-1] }`).
+// ret is that address expression inside the helper, arg the caller's argument for the parameter it starts from.
+func navAccessor(call *ssa.Call) (h *ssa.Function, ret ssa.Value, arg ssa.Value, ok bool) {
+	h = ir.Callee(call.Call)
+	if h == nil || h.Blocks == nil || h.Pkg == nil || h.Pkg.Pkg.Path() != ir.MastPath || h.Signature.Results().Len() != 1 {
+		return nil, nil, nil, false
+	}
+	if _, isPtr := h.Signature.Results().At(0).Type().Underlying().(*types.Pointer); !isPtr {
+		return nil, nil, nil, false
+	}
+	var rets []*ssa.Return
+	for _, r := range ir.Returns(h) {
+		if len(r.Block().Preds) == 0 && r.Block().Index != 0 {
+			continue
+		}
+		rets = append(rets, r)
+	}
+	if len(rets) != 1 || len(rets[0].Results) != 1 {
+		return nil, nil, nil, false
+	}
+	ret = rets[0].Results[0]
+	if _, nested := ret.(*ssa.Call); nested {
+		return nil, nil, nil, false
+	}
+	p := navStateRoot(ret)
+	if p == nil || p.Parent() != h {
+		return nil, nil, nil, false
+	}
+	k := paramIndex(p)
+	if k < 0 || k >= len(call.Call.Args) {
+		return nil, nil, nil, false
+	}
+	return h, ret, call.Call.Args[k], true
+}
+
+// navSym is ir.Sym of an address with accessor calls at its root replaced by what they return, written in the
+// caller's terms: `c.top().linkIndex` reads as `c.path[len(c.path)-1].linkIndex`.
+func navSym(addr ssa.Value) string {
+	s := ir.Sym(addr)
+	root := addr
+walk:
+	for i := 0; i < 8; i++ {
+		switch x := root.(type) {
+		case *ssa.FieldAddr:
+			root = x.X
+		case *ssa.IndexAddr:
+			root = x.X
+		default:
+			break walk
+		}
+	}
+	call, isCall := root.(*ssa.Call)
+	if !isCall {
+		return s
+	}
+	h, ret, arg, ok := navAccessor(call)
+	if !ok {
+		return s
+	}
+	p := navStateRoot(ret)
+	inl := ir.Sym(ret)
+	if pn, an := "P:"+p.Name(), ir.Sym(arg); pn != an {
+		inl = regexp.MustCompile(regexp.QuoteMeta(pn)+`\b`).ReplaceAllString(inl, an)
+	}
+	_ = h
+	return strings.Replace(s, ir.Sym(call), strings.TrimPrefix(inl, "&"), 1)
 }
 
 func runNAVCOMMIT(c *Ctx) {
@@ -93,8 +169,8 @@ func runNAVCOMMIT(c *Ctx) {
 					if writes[fn] == nil {
 						writes[fn] = map[int]string{}
 					}
-					writes[fn][paramIndex(p)] = "store to " + pathDesc(ir.Sym(st.Addr))
-					direct[fn] = append(direct[fn], Effect{Instr: st, Desc: "store to " + pathDesc(ir.Sym(st.Addr))})
+					writes[fn][paramIndex(p)] = "store to " + pathDesc(navSym(st.Addr))
+					direct[fn] = append(direct[fn], Effect{Instr: st, Desc: "store to " + pathDesc(navSym(st.Addr))})
 				}
 			}
 		}
@@ -263,7 +339,7 @@ func compensated(fn *ssa.Function, call ssa.CallInstruction, effs []Effect) bool
 			continue
 		}
 		if ir.InstrReaches(st, call) {
-			before[locKey(ir.Sym(st.Addr))] = true
+			before[locKey(navSym(st.Addr))] = true
 		}
 	}
 	if len(before) == 0 {
@@ -276,7 +352,7 @@ func compensated(fn *ssa.Function, call ssa.CallInstruction, effs []Effect) bool
 		}
 		for _, ins := range b.Instrs {
 			if st, ok := ins.(*ssa.Store); ok {
-				undone[locKey(ir.Sym(st.Addr))] = true
+				undone[locKey(navSym(st.Addr))] = true
 			}
 		}
 	}
@@ -296,7 +372,7 @@ func compensated(fn *ssa.Function, call ssa.CallInstruction, effs []Effect) bool
 	for _, b := range fn.Blocks {
 		for _, ins := range b.Instrs {
 			// also a position reached through a helper's result (`pe := c.top(); pe.linkIndex++`)
-			if st, ok := ins.(*ssa.Store); ok && strings.HasSuffix(ir.Sym(st.Addr), "."+posFieldName) && ir.InstrReaches(st, call) {
+			if st, ok := ins.(*ssa.Store); ok && strings.HasSuffix(navSym(st.Addr), "."+posFieldName) && ir.InstrReaches(st, call) {
 				posBefore = true
 			}
 		}
@@ -387,11 +463,13 @@ func compensated(fn *ssa.Function, call ssa.CallInstruction, effs []Effect) bool
 		base string
 		off  int64
 	}
-	var nf func(v ssa.Value, d int) nform
-	nf = func(v ssa.Value, d int) nform {
+	// at != nil: v belongs to an accessor inlined at the call `at` (its reads happen when the call runs); rename
+	// rewrites the accessor's own names into the caller's
+	var nfAt func(v ssa.Value, d int, at ssa.Instruction, rename func(string) string) nform
+	nfAt = func(v ssa.Value, d int, at ssa.Instruction, rename func(string) string) nform {
 		v = ir.ResolveCell(v)
 		if d > 8 {
-			return nform{ir.Sym(v), 0}
+			return nform{rename(ir.Sym(v)), 0}
 		}
 		if k, isK := ir.ConstInt(v); isK {
 			return nform{"", k}
@@ -399,7 +477,7 @@ func compensated(fn *ssa.Function, call ssa.CallInstruction, effs []Effect) bool
 		switch x := v.(type) {
 		case *ssa.BinOp:
 			if k, isK := ir.ConstInt(x.Y); isK && (x.Op == token.ADD || x.Op == token.SUB) {
-				n := nf(x.X, d+1)
+				n := nfAt(x.X, d+1, at, rename)
 				if x.Op == token.SUB {
 					k = -k
 				}
@@ -408,40 +486,70 @@ func compensated(fn *ssa.Function, call ssa.CallInstruction, effs []Effect) bool
 		case *ssa.Call:
 			if b, ok := x.Call.Value.(*ssa.Builtin); ok && b.Name() == "len" {
 				if ld, ok := x.Call.Args[0].(*ssa.UnOp); ok && ld.Op == token.MUL {
+					var when ssa.Instruction = x
+					if at != nil {
+						when = at
+					}
+					loc := locKey(rename(ir.Sym(ld.X)))
 					tag := "LEN0:"
-					if postState(x) && before[locKey(ir.Sym(ld.X))] {
+					if postState(when) && before[loc] {
 						tag = "LEN1:"
 					}
-					return nform{tag + locKey(ir.Sym(ld.X)), 0}
+					return nform{tag + loc, 0}
 				}
 			}
 		}
-		return nform{ir.Sym(v), 0}
+		return nform{rename(ir.Sym(v)), 0}
 	}
-	firstIndex := func(addr ssa.Value) (ssa.Value, bool) {
+	ident := func(s string) string { return s }
+	nf := func(v ssa.Value, d int) nform { return nfAt(v, d, nil, ident) }
+	firstIndex := func(addr ssa.Value) (nform, bool) {
 		for i := 0; i < 8; i++ {
 			switch x := addr.(type) {
 			case *ssa.FieldAddr:
 				addr = x.X
 			case *ssa.IndexAddr:
-				return x.Index, true
+				return nf(x.Index, 0), true
 			case *ssa.UnOp:
 				if x.Op != token.MUL {
-					return nil, false
+					return nform{}, false
 				}
 				addr = x.X
 			case *ssa.Phi:
-				return nil, false
+				return nform{}, false
+			case *ssa.Call:
+				// pe := c.top(): the element the accessor picks when it is called
+				_, ret, arg, ok := navAccessor(x)
+				if !ok {
+					return nform{}, false
+				}
+				p := navStateRoot(ret)
+				rename := ident
+				if pn, an := "P:"+p.Name(), ir.Sym(arg); pn != an {
+					re := regexp.MustCompile(regexp.QuoteMeta(pn) + `\b`)
+					rename = func(s string) string { return re.ReplaceAllString(s, an) }
+				}
+				for j := 0; j < 8; j++ {
+					switch y := ret.(type) {
+					case *ssa.FieldAddr:
+						ret = y.X
+						continue
+					case *ssa.IndexAddr:
+						return nfAt(y.Index, 0, x, rename), true
+					}
+					return nform{}, false
+				}
+				return nform{}, false
 			default:
 				// a pointer variable (pe := &c.path[i]): look through its single definition
 				if r := ir.ResolveCell(addr); r != addr {
 					addr = r
 					continue
 				}
-				return nil, false
+				return nform{}, false
 			}
 		}
-		return nil, false
+		return nform{}, false
 	}
 	for _, b := range fn.Blocks {
 		if !nilFactOn(b, errV, false) {
@@ -449,22 +557,25 @@ func compensated(fn *ssa.Function, call ssa.CallInstruction, effs []Effect) bool
 		}
 		for _, ins := range b.Instrs {
 			st, ok := ins.(*ssa.Store)
-			if !ok || !before[locKey(ir.Sym(st.Addr))] {
+			if !ok || !before[locKey(navSym(st.Addr))] {
 				continue
 			}
-			self := locKey(ir.Sym(st.Addr))
+			self := locKey(navSym(st.Addr))
 			if !intLeavesOK(st.Addr, self, 0) || !intLeavesOK(st.Val, self, 0) {
 				return false
 			}
 			for _, fw := range effStores {
-				if locKey(ir.Sym(fw.Addr)) != self {
+				if locKey(navSym(fw.Addr)) != self {
 					continue
 				}
 				// the same element
 				fi, fok := firstIndex(fw.Addr)
 				ui, uok := firstIndex(st.Addr)
-				if fok && uok && nf(fi, 0) != nf(ui, 0) {
+				if fok && uok && fi != ui {
 					return false
+				}
+				if fok != uok {
+					return false // one of the two elements cannot be named: not shown to be the same
 				}
 				// a list that was appended to is cut back to its old length
 				if _, isSlice := fw.Val.Type().Underlying().(*types.Slice); isSlice {
